@@ -16,8 +16,9 @@ func checkC18(c *Ctx) {
 	c18EvalContext(c)
 	c18Scopes(c)
 	c18Inherit(c)
-	c08UnknownBody(c) // R4: block specs agree on unknown bodies
-	c07Dynblock(c)    // R5: variables reported for expansion
+	c08UnknownBody(c)  // R4: block specs agree on unknown bodies
+	c07Dynblock(c)     // R5: variables reported for expansion
+	c07VisitRecurse(c) // ChildBlockTypes feeds the dynamic-block walkers
 	c.NotCovered("the 'as if written out' equality of decoded values; iteration order of the for_each collection (delegated to cty's ElementIterator)")
 	c.Rule("R9 unknown.noerror (shared with C05): in ext/dynblock, an operand (for_each, labels, iterator) that evaluates to cty.DynamicVal takes no branch, decided by the fixed answers of the cty predicates on such a value, after which an error is recorded on every path: an unknown for_each is expanded to an unknown body, never rejected")
 	var dynFns []*ssa.Function
